@@ -165,8 +165,26 @@ vp_slice_rposition(buf,
     ensures res@ == trim_r(buf@, byte), // id: drops_exactly_trailing_bytes [C04]
 //@@ end
 
-/// R6: `for val in buf` over `&mut [u8]` (IterMut) is outside Verus' reach: contract ASSUMED, checked natively (bounded)
-//@@ fn src/parsing/buffers.rs - replace_byte mode=external_body props=C04
+/// body VERIFIED: `for val in buf` over `&mut [u8]` (IterMut) desugared by R8 to an index loop taking `&mut buf[i]`
+//@@ fn src/parsing/buffers.rs - replace_byte props=C04,C05
+//@@ block R8
+for val in buf
+//@@ =>
+{
+    let ghost b0 = buf@;
+    let mut vp_i: usize = 0;
+    while vp_i < buf.len()
+        invariant vp_i <= buf@.len(), buf@.len() == b0.len(),
+            forall|j: int| 0 <= j < vp_i ==> #[trigger] buf@[j] == (if b0[j] == byte { replace } else { b0[j] }), // id: replaced_up_to_the_cursor [C04]
+            forall|j: int| vp_i <= j < buf@.len() ==> #[trigger] buf@[j] == b0[j],
+        decreases buf@.len() - vp_i,
+    {
+        let val = &mut buf[vp_i];
+@@BODY
+        vp_i += 1;
+    }
+    proof { assert(buf@ =~= repl(b0, byte, replace)); }
+}
 //@@ contract
-    ensures final(buf)@ == repl(old(buf)@, byte, replace),
+    ensures final(buf)@ == repl(old(buf)@, byte, replace), // id: every_occurrence_replaced_nothing_else_touched [C04]
 //@@ end
